@@ -23,4 +23,13 @@ def kmsz (t : Tokens) : String :=
   let lim := min (t.nat "second") (4 * 1024 * 1024)
   s!"reply={if t.nat "len" ≤ lim then 1 else 0}"
 
+/-- k13big: announced msize = min(requested, 4 MiB); the Rread carries min(count, announced-11)
+bytes (the backend fills the buffer), frame = 11 + that (C13 `rread_fits`) -/
+def k13big (t : Tokens) : String :=
+  let ann := min (t.nat "req") (4 * 1024 * 1024)
+  let n := min (t.nat "count") (ann - 11)
+  -- a count above 4 MiB is refused outright (ENOBUFS): an error, not an over-long Rread (I6)
+  if t.nat "count" > 4 * 1024 * 1024 then s!"ann={ann} rtyp=7 rlen=11"
+  else s!"ann={ann} rtyp=117 rlen={n + 11}"
+
 end P9.Driver
